@@ -908,9 +908,23 @@ func (x *dexec) doByteAtEnd(op *Op) string {
 
 func (x *dexec) doReset(op *Op) string {
 	pn, hang := x.call(x.budget(0), func() {
-		if x.buf != nil {
+		cfg := lz.DecoderConfig{WindowSize: x.spec.WindowSize, BufferSize: x.spec.BufferSize}
+		switch {
+		case op.X == 1 && x.buf != nil:
+			// re-Init of a used buffer (its Data slice is reused)
+			if err := x.buf.Init(cfg); err != nil {
+				panic("Init of an accepted configuration failed: " + err.Error())
+			}
+			x.probe("reinit")
+		case op.X == 1:
+			x.wr = NewSimWriter(op.WP, x.res.Fired)
+			if err := x.dec.Init(x.wr, cfg); err != nil {
+				panic("Init of an accepted configuration failed: " + err.Error())
+			}
+			x.probe("reinit")
+		case x.buf != nil:
 			x.buf.Reset()
-		} else {
+		default:
 			x.wr = NewSimWriter(op.WP, x.res.Fired)
 			x.dec.Reset(x.wr)
 		}
